@@ -31,9 +31,18 @@ func c08Body(c *run.Ctx) {
 		}
 		// arrivals while a hand runs
 		if choose.Chance(c.Ch, "arrive.inhand", 4) {
-			mo := sim.MemOpts{NewPlayer: 3, NewRandom: 1, JoinSitter: 2, KeepSitting: 30, MaxNewID: 14}
+			// ... including busted / sitting players who buy chips again (never the hand's participants)
+			mo := sim.MemOpts{NewPlayer: 3, NewRandom: 1, JoinSitter: 2, Rebuy: 2, Addon: 4, KeepSitting: 30, MaxNewID: 14, NoLeave: map[string]bool{}}
+			if s.Cur != nil {
+				for _, id := range s.Cur.M {
+					mo.NoLeave[id] = true
+				}
+			}
 			if op := s.RandomMembershipOp(mo); op != nil {
 				s.Label("arrival_during_hand")
+				if op.Kind == "redeem" && op.Err == nil {
+					s.Label("chips_bought_during_hand_by_non_participant")
+				}
 			}
 		}
 	}
@@ -58,7 +67,7 @@ func c08Body(c *run.Ctx) {
 		}
 		// arrivals / joins while the gate is armed (no departures: they would be external help or hindrance)
 		if n > 1 && choose.Chance(c.Ch, "arrive.gate", 25) {
-			mo := sim.MemOpts{NewPlayer: 3, NewRandom: 1, JoinSitter: 3, Rebuy: 3, KeepSitting: 30, MaxNewID: 14}
+			mo := sim.MemOpts{NewPlayer: 3, NewRandom: 1, JoinSitter: 3, Rebuy: 3, Addon: 2, KeepSitting: 30, MaxNewID: 14, TopupAnyone: true}
 			if op := s.RandomMembershipOp(mo); op != nil {
 				s.Label("arrival_during_gate")
 			}
@@ -138,13 +147,16 @@ func c08Body(c *run.Ctx) {
 			case h.Outcome == "open-refused":
 				sig = "C08.no-open.rotation-refused"
 				// the recorded C04 finding: all but at most one of the live players carry the waiting flag
-				notWaiting := 0
+				notWaiting, smLive := 0, 0
 				for _, sp := range s.SeatManager().Seats() {
-					if sp != nil && sp.IsIn && sp.HasChips && !sp.IsBetweenDealerBB {
-						notWaiting++
+					if sp != nil && sp.IsIn && sp.HasChips {
+						smLive++
+						if !sp.IsBetweenDealerBB {
+							notWaiting++
+						}
 					}
 				}
-				if notWaiting < 2 {
+				if smLive >= 2 && notWaiting < 2 {
 					sig = "C08.no-open.rotation-refused.waiting-flag"
 				}
 				evidence += " | seat manager: " + smDump(s.SeatManager())
